@@ -194,17 +194,23 @@ pub fn cells() -> Vec<Cell> {
                 }
             }
             for (op, pop) in ops {
-                out.push(Cell {
-                    writer: w,
-                    readers: r.clone(),
-                    contents: contents.clone(),
-                    op,
-                    pop,
-                    checker: 0,
-                    umask: 0o022,
-                    auto_sync: true,
-                    size: crate::world::Size::One,
-                });
+                for size in matrix_sizes() {
+                    // (the size only matters where a new value is written)
+                    if size != crate::world::Size::One && !(matches!(op, MOp::Set | MOp::Put | MOp::SetTemp | MOp::PutTemp) || (pop == 0 && op.uses_populate())) {
+                        continue;
+                    }
+                    out.push(Cell {
+                        writer: w,
+                        readers: r.clone(),
+                        contents: contents.clone(),
+                        op,
+                        pop,
+                        checker: 0,
+                        umask: 0o022,
+                        auto_sync: true,
+                        size,
+                    });
+                }
             }
         }
     }
@@ -305,7 +311,7 @@ fn concurrent_programs() -> Vec<(crate::sched::Program, crate::props::e1::Mode)>
                     threads: e1::own_handles(vec![vec![api(Op::Gou(k.clone(), Act::Replace, Pop::Value(v(0))))], vec![api(other)]], false),
                     create_write_dir: true,
                 },
-                Mode::Bounded(2),
+                crate::props::e1::side_bound(),
             ));
         };
         add("secondary|set", vec![ro.clone()], Op::Set(k.clone(), v(1)));
@@ -340,6 +346,7 @@ fn concurrent_check(x: &crate::sched::Execution) -> Vec<(String, String)> {
 }
 
 pub fn run(_tier: Tier, shard: Shard, rep: &mut Report) {
+    set_tier(_tier);
     rep.rule = "full matrix: write side {none, plain, sharded(3)} x read-only list {[], [p], [s], [p,p], [p,s], [s,p], [s,s]} x \
         per-level content {nothing, A, B} (sharded levels: value in the primary or the secondary shard) x operation {get, touch, \
         set, put, set_temp_file, put_temp_file, ensure, get_or_update x {Accept, Promote, Replace}} x populate {value, NotFound, other error}, no \
